@@ -554,4 +554,8 @@ theorem filter_v4_of_no_v6 {α} (fam : α → Fam) (l : List α)
   have := (List.filter_eq_nil_iff.mp h) a ha
   cases hf : fam a <;> simp_all [isV4, isV6]
 
+theorem listedAsSubnet_iff {ip : Ip} {subs : List Subnet} :
+    listedAsSubnet ip subs = true ↔ ∃ s ∈ subs, s.ip = ip := by
+  simp [listedAsSubnet]
+
 end Sshuttle.ClientPlan
